@@ -368,14 +368,16 @@ def gen_intersection(rng):
         else:                                           # slope distance: with a zenith angle / with both heights
             orient(a, have); direction(a, x)
             f, t = (a, x) if rng.random() < 0.5 else (x, a)
-            dz = T[t][2] - T[f][2]
+            # instrument / target heights above the marks (half of the cases): the line of sight runs between them
+            fdh, tdh = (rng.uniform(1.2, 1.9), rng.uniform(0.1, 2.6)) if rng.random() < 0.5 else (0.0, 0.0)
+            dz = T[t][2] + tdh - (T[f][2] + fdh)
             h = hd(T[f], T[t])
             if k == "sdza":
-                add(f, f"sd {f} {t} {H(math.hypot(h, dz))} {H(0.0)} {H(0.0)}")
-                add(f, f"za {f} {t} {H(math.atan2(h, dz))} {H(0.0)} {H(0.0)}")
+                add(f, f"sd {f} {t} {H(math.hypot(h, dz))} {H(fdh)} {H(tdh)}")
+                add(f, f"za {f} {t} {H(math.atan2(h, dz))} {H(fdh)} {H(tdh)}")
             else:
                 zknown |= {f, t}
-                add(f, f"sd {f} {t} {H(bad(math.hypot(h, dz), [0.2]))} {H(0.0)} {H(0.0)}")
+                add(f, f"sd {f} {t} {H(bad(math.hypot(h, dz), [0.2]))} {H(fdh)} {H(tdh)}")
         if rng.random() < 0.7:
             have.append(x)                              # the next point may be tied to this one
     recs = []
@@ -472,10 +474,9 @@ def gen_acord2(rng):
             za = TWO_PI - za
         add(s, f"za {s} {t} {H(za)} {H(fdh)} {H(tdh)}")
         r = rng.random()
-        # a slope distance only WITHOUT instrument / target heights: AcordIntersection::execute reduces a slope distance
-        # whose end points both have heights with the point heights alone (from_dh / to_dh ignored: xy off by mm..cm,
-        # corpus/C06/pending/acord2-intersection-slope-dh.txt, notes/proposed/C06-intersection-slope-dh.diff)
-        if r < 0.4 or (use_dh and r < 0.8):
+        # slope distances WITH instrument / target heights are drawn again: AcordIntersection::execute reduces them with
+        # the heights above the marks since 863dd00 (regression input corpus/C06/acord2-intersection-slope-dh.txt)
+        if r < 0.4:
             add(s, f"d {s} {t} {H(h)}")
         elif r < 0.8:
             add(s, f"sd {s} {t} {H(math.hypot(h, dzi))} {H(fdh)} {H(tdh)}")
